@@ -9332,7 +9332,7 @@ class TensorDictBase(MutableMapping):
         return self.sub_(other)
 
     def __rsub__(self, other: TensorDictBase | torch.Tensor) -> T:
-        return self.sub(other)
+        return self.neg().add(other)
 
     def __pow__(self, other: TensorDictBase | torch.Tensor) -> T:
         return self.pow(other)
